@@ -38,3 +38,77 @@ contract(
                        ForAll(lambda i: Implies(And(high < i, i < Len(linestarts)), linestarts[i][0] > offset))),
                    decreases=lambda low, high: high - low + 1)},
 )
+
+
+# ------------------------------------------------------------------------------------------------
+# C17: exception table.  _parse_varint == big-endian 6-bit varint of the format; StopIteration exactly
+# when the stream ends inside the varint; the iterator is left right after the varint.
+from spec import exctable as X
+from pyvc.sym import ZSeq, SInt, SBool, _ie, _be
+from pyvc.engine import HSymList, HList
+from pyvc.types import Maker
+import z3
+
+contract(
+    "xdis.bytecode:_parse_varint",
+    params={"iterator": BytesIter()},
+    raises={StopIteration: lambda _old_iterator: Not(X.be_varint(_old_iterator.data, _old_iterator.pos)[0])},
+    ensures=lambda iterator, _old_iterator, result: [
+        ("complete", X.be_varint(_old_iterator.data, _old_iterator.pos)[0]),
+        ("value", result == X.be_varint(_old_iterator.data, _old_iterator.pos)[1]),
+        ("position", iterator.pos == X.be_varint(_old_iterator.data, _old_iterator.pos)[2]),
+        ("advances", iterator.pos > _old_iterator.pos),
+    ],
+    result=Int(),
+    effect=lambda eng, vals, result, exc: _varint_effect(eng, vals, result, exc),
+    loops={0: Loop("while b & 64",
+                   invariant=lambda iterator, _old_iterator, val, b: And(
+                       val >= 0, b >= 0, b <= 255, iterator.pos > _old_iterator.pos,
+                       X.bev(iterator.data, iterator.pos, val, b)[0] == X.be_varint(_old_iterator.data, _old_iterator.pos)[0],
+                       X.bev(iterator.data, iterator.pos, val, b)[1] == X.be_varint(_old_iterator.data, _old_iterator.pos)[1],
+                       X.bev(iterator.data, iterator.pos, val, b)[2] == X.be_varint(_old_iterator.data, _old_iterator.pos)[2]),
+                   decreases=lambda iterator: Len(iterator.data) - iterator.pos + 1)},
+    native_post=lambda _old_iterator, iterator, result: [
+        ("value", result == X.be_varint(_old_iterator.data, _old_iterator.pos)[1]),
+        ("position", iterator.pos == X.be_varint(_old_iterator.data, _old_iterator.pos)[2])],
+)
+
+
+def _varint_effect(eng, vals, result, exc):
+    """call-site frame of _parse_varint: modifies iterator.pos only"""
+    it = vals["iterator"]
+    if exc is None:
+        p = z3.Int(eng.fresh("pos"))
+        eng.run.pc.append(z3.And(p >= 0, p <= it.seq.len_e()))
+        it._pos = SInt(p)
+    else:
+        it._pos = SInt(it.seq.len_e())     # a varint that runs off the end consumes the rest of the stream
+
+
+def _exc_col(entries, j):
+    if isinstance(entries, HSymList):
+        return entries.col(j)
+    items = entries.items if isinstance(entries, HList) else list(entries)
+    return ZSeq.of([(1 if e[j] else 0) if isinstance(e[j], bool) else e[j] for e in items])
+
+
+class ExcEntryList(Maker):
+    """symbolic list of _ExceptionTableEntry(start, end, target, depth, lasti: bool)"""
+    def __call__(self, eng, name):
+        import xdis.bytecode as B
+        lst = HSymList(name, ["int", "int", "int", "int", "bool"], lambda c: B._ExceptionTableEntry(*c), lambda v: list(v))
+        eng.havoc_heap(lst, name, True)
+        return lst, []
+
+
+contract(
+    "xdis.bytecode:parse_exception_table",
+    params={"exception_table": Bytes(maxlen=10)},
+    ensures=lambda exception_table, result: [("field%d" % w, _exc_col(result, w) == X.exc_seq(exception_table, 0, w)) for w in range(5)],
+    native_post=lambda exception_table, result: [("entries", [tuple(e) for e in result] == X.entries(exception_table))],
+    loops={0: Loop("while True",
+                   havoc={"entries": ExcEntryList()},
+                   invariant=lambda exception_table, iterator, entries: And(*[
+                       _exc_col(entries, w) + X.exc_seq(exception_table, iterator.pos, w) == X.exc_seq(exception_table, 0, w) for w in range(5)]),
+                   decreases=lambda iterator: Len(iterator.data) - iterator.pos)},
+)
